@@ -216,6 +216,9 @@ def z3_to_py(v):
 
 
 # ------------------------------------------------------------------------- solving one VC ----
+_LEAN_RUNS = {}
+
+
 def run_lean(lean_file, theorem):
     import re
     import shutil
@@ -224,15 +227,19 @@ def run_lean(lean_file, theorem):
     t0 = time.time()
     if shutil.which("lean") is None or not os.path.exists(path):
         return "unknown", 0.0, "lean or the lemma file is not available"
-    try:
-        p = subprocess.run(["lean", path], capture_output=True, text=True, timeout=900)
-    except subprocess.TimeoutExpired:
-        return "unknown", time.time() - t0, "lean timed out"
+    key = (path, os.path.getmtime(path))
+    if key not in _LEAN_RUNS:
+        try:
+            p = subprocess.run(["lean", path], capture_output=True, text=True, timeout=900)
+        except subprocess.TimeoutExpired:
+            return "unknown", time.time() - t0, "lean timed out"
+        _LEAN_RUNS[key] = p
+    p = _LEAN_RUNS[key]
     out = (p.stdout or "") + (p.stderr or "")
     m = re.search(r"'" + re.escape(theorem) + r"' depends on axioms: \[([^\]]*)\]", out)
     axioms = [x.strip() for x in m.group(1).split(",")] if m else None
     no_ax = re.search(r"'" + re.escape(theorem) + r"' does not depend on any axioms", out) is not None
-    ok = p.returncode == 0 and "error" not in out and "sorry" not in out and (no_ax or (axioms is not None and set(axioms) <= {"propext", "Classical.choice", "Quot.sound"}))
+    ok = p.returncode == 0 and ": error" not in out and "sorry" not in out and (no_ax or (axioms is not None and set(axioms) <= {"propext", "Classical.choice", "Quot.sound"}))
     return ("unsat" if ok else "unknown"), time.time() - t0, out.strip()[-600:]
 
 
